@@ -272,3 +272,79 @@ func (c *canonizer) walk(v reflect.Value) {
 		panic("canon: unsupported kind " + v.Kind().String() + " (" + t.String() + ")")
 	}
 }
+
+// Reach collects the addresses of all mutable memory reachable from root:
+// pointer targets, slice backing arrays, Go maps (funcs are skipped).
+func Reach(root any) map[uintptr]string {
+	out := map[uintptr]string{}
+	seen := map[ptrKey]bool{}
+	var walk func(v reflect.Value)
+	walk = func(v reflect.Value) {
+		if !v.IsValid() {
+			return
+		}
+		switch v.Kind() {
+		case reflect.Ptr:
+			if v.IsNil() {
+				return
+			}
+			k := ptrKey{v.Pointer(), v.Type()}
+			if seen[k] {
+				return
+			}
+			seen[k] = true
+			if v.Type().Elem().Size() > 0 {
+				out[v.Pointer()] = v.Type().String()
+			}
+			walk(v.Elem())
+		case reflect.Interface:
+			if !v.IsNil() {
+				walk(v.Elem())
+			}
+		case reflect.Struct:
+			for i := 0; i < v.NumField(); i++ {
+				walk(v.Field(i))
+			}
+		case reflect.Array:
+			for i := 0; i < v.Len(); i++ {
+				walk(v.Index(i))
+			}
+		case reflect.Slice:
+			if v.IsNil() || v.Cap() == 0 {
+				return
+			}
+			if v.Type().Elem().Size() > 0 {
+				out[v.Pointer()] = v.Type().String()
+			}
+			h := v.Slice(0, v.Cap())
+			for i := 0; i < h.Len(); i++ {
+				walk(h.Index(i))
+			}
+		case reflect.Map:
+			if v.IsNil() {
+				return
+			}
+			out[v.Pointer()] = v.Type().String()
+			it := v.MapRange()
+			for it.Next() {
+				walk(it.Key())
+				walk(it.Value())
+			}
+		}
+	}
+	walk(reflect.ValueOf(root))
+	return out
+}
+
+// SharedMemory lists memory reachable from both a and b.
+func SharedMemory(a, b any) []string {
+	ra, rb := Reach(a), Reach(b)
+	var sh []string
+	for p, t := range ra {
+		if _, ok := rb[p]; ok {
+			sh = append(sh, t)
+		}
+	}
+	sort.Strings(sh)
+	return sh
+}
